@@ -54,3 +54,8 @@ claim('C02',
       'PANIC / ALLOC / REC / read-to-end obligation families over the call graph reachable from the decode entry points, discharged by guard-aware interval + relational analysis (suffix relation of parser results, take(n) lengths, loop-variable bounds), reviewed table with stated premises for the remainder',
       'For every function of erltf reachable from the 8 decode entry points (and BorrowedTerm::to_owned) every panic-capable site (slice/array indexing, arithmetic overflow, division, unwrap/expect, explicit panic, partial std APIs), every wire-sized allocation (must be bounded by the remaining input length or by <= 1 MiB) and every read_to_end (must go through io::Take) is enumerated from MIR and discharged on all paths, and every call-graph cycle is checked for a depth guard (three recorded known findings: unbounded recursion). A handful of sites are discharged by a reviewed table whose entries state the premise (nom suffix property, flate2 total_in contract, static table). Not decided: peak memory / stack depth as numbers, behaviour of nom / flate2 / bytes internals.',
       NOTE, 'DESIGN.md §4 C02')
+
+claim('C03',
+      'dispatch-table extraction of the owned decoder vs spec/etf_tags.json, normalised wire-signature extraction per tag (widths, order, count/length provenance) vs the format table, field-order provenance, Latin-1 path rule, trailing-data dominance, CAST',
+      'Decided from MIR for all 32 dispatched tags: every tag of the format (OTP 26+ and legacy) is dispatched and nothing alien is accepted; the bytes read per tag equal the format\'s layout including which field counts which repetition or byte run; each tag builds the value kind the format assigns; same-width fields are not transposed (read order = constructor parameter order, constructors store parameters in same-named fields); the legacy Latin-1 atom tags have a success path without UTF-8 validation; every single-term entry point (and the inflated inner buffer) tests for trailing data before Ok; no unguarded narrowing cast. Not decided: value equality, numerically-equal map keys (a consequence of the comparator, C12).',
+      NOTE, 'DESIGN.md §4 C03')
